@@ -998,9 +998,9 @@ impl LineBuf {
 	pub fn index_line_number(&self, pos: usize) -> usize {
 		self.grapheme_indices().get(..pos)
 			.map(|slice| {
-				slice
-					.iter()
-					.filter(|idx| self.read_grapheme_at(**idx) == Some("\n"))
+				// `slice` holds byte offsets; graphemes are addressed by their index
+				(0..slice.len())
+					.filter(|idx| self.read_grapheme_at(*idx) == Some("\n"))
 					.count()
 			}).unwrap_or(0)
 	}
